@@ -743,7 +743,7 @@ func c03SendAll(r *core.Run, fld *types.Var) {
 			st := enclosing(f.Decl.Body, ap.Stmt)
 			for i := 0; i+1 < len(st); i++ {
 				if ifs, ok := st[i].(*ast.IfStmt); ok && st[i+1] == ifs.Body {
-					if !modeTestOnly(info, ifs.Cond) {
+					if !modeTestOnlyIn(f, info, ifs.Cond) {
 						okGuard = false
 					}
 				}
@@ -755,6 +755,19 @@ func c03SendAll(r *core.Run, fld *types.Var) {
 
 // modeTestOnly: cond compares a TransactionMode / BranchType value with a named constant.
 func modeTestOnly(info *types.Info, cond ast.Expr) bool {
+	return modeTestOnlyIn(nil, info, cond)
+}
+
+// modeTestOnlyIn: cond is the AT-mode test, or a bool variable of f assigned once from it (isAT := bt == BranchTypeAT)
+func modeTestOnlyIn(f *core.FuncInfo, info *types.Info, cond ast.Expr) bool {
+	if id, ok := ast.Unparen(cond).(*ast.Ident); ok && f != nil {
+		if v, ok := info.Uses[id].(*types.Var); ok {
+			if defs := localDefs(f, v); len(defs) == 1 && !defs[0].rng {
+				return modeTestOnlyIn(nil, info, defs[0].rhs)
+			}
+		}
+		return false
+	}
 	be, ok := ast.Unparen(cond).(*ast.BinaryExpr)
 	if !ok || be.Op != token.EQL {
 		return false
